@@ -340,6 +340,9 @@ type producer struct {
 	pool map[[2]uint64][]*types.Tx // (sender, nonce) -> transactions made so far (for sharing between branches)
 	cid  []byte
 	seq  int
+	// options of the next make: senders allowed for fresh transactions (nil: all), transactions to take over
+	senders []int
+	want    []*types.Tx
 }
 
 type stubCcc struct{}
@@ -385,6 +388,36 @@ func (p *producer) newTx(from, to int, nonce uint64, amount int64, bi *types.Blo
 func (p *producer) pickTxs(parent *mblock, ntx int, bi *types.BlockHeaderInfo, k kind) ([]*types.Tx, [nAcct]uint64) {
 	nonces := parent.nonces
 	var txs []*types.Tx
+	// transactions of other blocks the caller wants on this block too (shared between branches at a chosen height):
+	// taken in the given order as far as the sender's nonce fits on this branch
+	for _, tx := range p.want {
+		from := -1
+		for i, a := range p.w.addrs {
+			if string(a) == string(tx.Body.Account) {
+				from = i
+			}
+		}
+		if from >= 0 && tx.Body.Nonce == nonces[from]+1 {
+			txs = append(txs, tx)
+			nonces[from]++
+		}
+	}
+	pickFrom := func() int {
+		// one time in two prefer a sender whose next nonce already has a transaction on another branch and share it
+		if p.rng.Chance(1, 2) {
+			var cand []int
+			for _, f := range p.sendersOrAll() {
+				if len(p.pool[[2]uint64{uint64(f), nonces[f] + 1}]) > 0 {
+					cand = append(cand, f)
+				}
+			}
+			if len(cand) > 0 {
+				return cand[p.rng.Intn(len(cand))]
+			}
+		}
+		all := p.sendersOrAll()
+		return all[p.rng.Intn(len(all))]
+	}
 	badAt := -1
 	if k == kBadTx {
 		if ntx == 0 {
@@ -393,7 +426,7 @@ func (p *producer) pickTxs(parent *mblock, ntx int, bi *types.BlockHeaderInfo, k
 		badAt = p.rng.Intn(ntx)
 	}
 	for i := 0; i < ntx; i++ {
-		from := p.rng.Intn(nAcct)
+		from := pickFrom()
 		if i == badAt {
 			to := (from + 1 + p.rng.Intn(nAcct-1)) % nAcct
 			txs = append(txs, p.newTx(from, to, nonces[from]+3+uint64(p.rng.Intn(3)), 1+int64(p.rng.Intn(9)), bi))
@@ -423,6 +456,17 @@ func (p *producer) pickTxs(parent *mblock, ntx int, bi *types.BlockHeaderInfo, k
 		nonces[from] = nn
 	}
 	return txs, nonces
+}
+
+func (p *producer) sendersOrAll() []int {
+	if len(p.senders) > 0 {
+		return p.senders
+	}
+	all := make([]int, nAcct)
+	for i := range all {
+		all[i] = i
+	}
+	return all
 }
 
 // make builds a child of parent of the given kind with ntx transactions, executing them through the real
